@@ -55,6 +55,8 @@ type freeEndpoint struct {
 	probe    [128]byte
 	nProbes  int32
 
+	nWrites, failWrite int
+
 	spec     packets.PacketFilterSpec
 	lis      *net.TCPListener
 	lisAddr  netip.AddrPort
@@ -118,6 +120,10 @@ func (s *freeSink) WriteTo(buf []byte, addr netip.AddrPort) error {
 		sum += uint32(b)
 	}
 	atomic.AddUint32(&s.ep.wsum, sum)
+	s.ep.nWrites++ // touched by the handle's one sender goroutine only
+	if k := s.ep.failWrite; k > 0 && s.ep.nWrites == k {
+		return &SentinelError{Actor: "free", Op: "write", K: k}
+	}
 	s.ep.probeStore(buf)
 	return nil
 }
@@ -276,7 +282,7 @@ func (w *freeWorld) newSourceSink(addr netip.Addr, useDriver bool) (packets.Sour
 		w.failed.Add(1)
 		return packets.SourceSinkHandle{}, true, &SentinelError{Actor: "free", Op: "new", K: idx + 1}
 	}
-	ep := &freeEndpoint{w: w, idx: idx, addr: addr, created: time.Now()}
+	ep := &freeEndpoint{w: w, idx: idx, addr: addr, created: time.Now(), failWrite: w.sc.Knobs.FreeFailWrite}
 	rng := rand.New(rand.NewPCG(uint64(w.sc.Knobs.RandSeed), uint64(idx)+1))
 	// pre-seeded plan: replies relative to the creation instant, some of them "before their probe"
 	c := &w.sc.Calls[0]
